@@ -33,7 +33,7 @@ from pathlib import Path
 from harness.translate import c01_dispatch, c01_tables
 
 ID = "C01"
-LEVEL_TEXT = ("33 theorems (all closed under the global context) about a Gallina model of the static visitor, for ALL statement lists of an abstract "
+LEVEL_TEXT = ("34 theorems (all closed under the global context) about a Gallina model of the static visitor, for ALL statement lists of an abstract "
               "statement language (def/class/assign/annassign/__all__ +=/import/from-import/if/block/handler/docstring statement; any nesting, any "
               "duplication): (1) the stack-and-flag visitor machine (frame stack = Visitor.current, mutable type_guarded saved/restored by visit_if, "
               "events, Python errors) computes exactly a recursive level semantics in which the type-guard flag is an inherited attribute true only "
@@ -59,7 +59,8 @@ LEVEL_TEXT = ("33 theorems (all closed under the global context) about a Gallina
               "Object.source its dedent (textwrap.dedent modelled for blanks and tabs), which cuts off nothing but the longest common whitespace prefix. (6b) Decorator spellings are resolved inside the model, in the scope of that moment (member of the current object, enclosing "
               "class bodies skipped, module last): every statement of every list is resolved against exactly the frames the machine has reached there; "
               "(6c) extension containers with a history: any interleaving of Extensions.add and visits announces each visit completely, in order and "
-              "once to every extension registered before it. (7) The visibility ladders regenerated "
+              "once to every extension registered before it; (6d) lines collections with a history: after any sequence of loads (own / same / shared "
+              "collection) of files whose text changes, the collection holds for the loaded path the text of that very load. (7) The visibility ladders regenerated "
               "from mixins.py equal the documented table on all 15360 inputs. Findings F1-F5, F7 repaired; F6 (overload-only names have no member) "
               "stays known with a computed witness. Model tied to the code on every run: two translators (fail closed), differential runs on "
               "generated modules (tree incl. function-object members, spans, labels, docstring spans, flags, imports, exports, event trace; "
@@ -77,7 +78,7 @@ LEVEL_NOTE = ("Trusted: Coq kernel, extraction, the two translators (harness/tra
               "input. The extension-history stream registers every recorder once (the theorem also covers repeated registration). History effects: a failure is only reported after it reproduced in a fresh "
               "interpreter, alone or after a minimised list of earlier modules.")
 MODEL = ("Model.C01_run", "run_C01_all")
-COQ_TARGETS = ["Proofs/C01_visitor.vo", "Proofs/C01_vis.vo", "Proofs/C01_content.vo", "Proofs/C01_raw.vo", "Proofs/C01_layout.vo", "Proofs/C01_dedent.vo", "Proofs/C01_resolve.vo", "Proofs/C01_ext.vo", "Model/C01_run.vo"]
+COQ_TARGETS = ["Proofs/C01_visitor.vo", "Proofs/C01_vis.vo", "Proofs/C01_content.vo", "Proofs/C01_raw.vo", "Proofs/C01_layout.vo", "Proofs/C01_dedent.vo", "Proofs/C01_resolve.vo", "Proofs/C01_ext.vo", "Proofs/C01_lines.vo", "Model/C01_run.vo"]
 RULE = ("seeded random structural modules (nesting <=4; name pool of 11 (incl. _t__, z__) with forced duplicates; decorators from the label tables, overload, "
         "accessor, unknown, over one or several lines; docstrings in every legal position incl. attribute docstrings, after if/for/try bodies, also "
         "parenthesised over several lines, concatenated across lines or followed by a comment line; layout noise: blank / comment lines at any "
@@ -1501,6 +1502,11 @@ def direct_checks(case, tree, mod, rec):
         fails.append(("docstring", "module docstring differs from the source", None))
 
     # ---- names per level: nothing extracted that is not bound; every supported binding extracted
+    all_extended = any(
+        (isinstance(n, ast.AugAssign) and isinstance(n.target, ast.Name) and n.target.id == "__all__")
+        or (isinstance(n, ast.Expr) and (all_method_call(n) or ("", "", False))[0] == "__all__")
+        or (isinstance(n, ast.ImportFrom) and any((a.asname or a.name) == "__all__" for a in n.names))
+        for n in ast.walk(tree))
     levels = [((), mod, tree.body, False)]
     for path, obj, parent in walk_objects(mod):
         if not obj.is_alias and obj.kind.value == "class":
@@ -1521,6 +1527,20 @@ def direct_checks(case, tree, mod, rec):
         eimp = expected_imports(body, case["mname"], case["is_init"])
         if dict(obj.imports) != eimp:
             fails.append(("imports", f"{where}: imports map {dict(obj.imports)} but the import statements give {eimp}", None))
+        # exports belong to the SURVIVING binding of __all__: when nothing extends the list afterwards, the exports are the
+        # items of the very assignment the member __all__ reports (a conditional re-assignment that the tie-break skips
+        # must not leave its list behind)
+        am = obj.members.get("__all__") if is_cls != "function" else None
+        if am is not None and not am.is_alias and am.kind.value == "attribute" and not all_extended:
+            st = idx.get(am.lineno)
+            if isinstance(st, (ast.Assign, ast.AnnAssign)) and st.value is not None and any(
+                    isinstance(t, ast.Name) and t.id == "__all__" for t in (st.targets if isinstance(st, ast.Assign) else [st.target])):
+                items = Abstraction("m", False).all_items(st.value)
+                if isinstance(st.value, (ast.List, ast.Tuple, ast.Set)) and items and all(i.startswith("s:") for i in items):
+                    got = export_items(obj.exports)
+                    case["_exports_vs_binding"] = case.get("_exports_vs_binding", 0) + 1
+                    if got != items:
+                        fails.append(("exports-binding", f"{where}: exports {got} but the surviving assignment of __all__ (line {am.lineno}) lists {items}", None))
         for name, m in obj.members.items():
             if m.is_alias and not name.endswith("/*") and name in eimp and m.target_path != eimp[name] and \
                     eimp[name] != ".".join((case["mname"],) + path + (name,)) and \
@@ -2592,6 +2612,119 @@ def ext_history_stream(ctx):
 
 
 # =====================================================================================================================
+# the lines collection has a history too (Model/C01_lines.v): loads of a file that changes on disk, one shared collection
+# =====================================================================================================================
+def text_checks(src, mod, label):
+    """Spans, Object.lines, Object.source and Docstring.source of every object against the text that was loaded NOW
+    (CPython's ast as authority)."""
+    fails = []
+    lines = src.splitlines()
+    tree = ast.parse(src)
+    idx = node_index(tree)
+    deco_owner = {n.decorator_list[0].lineno: n for n in ast.walk(tree)
+                  if isinstance(n, (ast.FunctionDef, ast.AsyncFunctionDef, ast.ClassDef)) and n.decorator_list}
+    if list(mod.lines) != lines:
+        fails.append(("object-lines", f"{label}: module lines are not the text that was loaded", None))
+    for path, obj, _parent in walk_objects(mod):
+        if obj.is_alias or not obj.lineno:
+            continue        # (a member without span is synthesised by the loader's built-in dataclasses extension: C18)
+        where = ".".join(path)
+        node = deco_owner.get(obj.lineno) if obj.kind.value in ("function", "class") and obj.lineno in deco_owner else idx.get(obj.lineno)
+        if node is None or getattr(node, "end_lineno", None) != obj.endlineno:
+            fails.append(("span-origin", f"{label}: {where}: span {obj.lineno}-{obj.endlineno} is the span of no statement of the loaded text", None))
+            continue
+        sliced = lines[obj.lineno - 1:obj.endlineno]
+        if list(obj.lines) != sliced:
+            fails.append(("object-lines", f"{label}: {where}: lines are not lines {obj.lineno}-{obj.endlineno} of the loaded text", None))
+        if obj.source != textwrap.dedent("\n".join(sliced)):
+            fails.append(("object-source", f"{label}: {where}: source is not the dedented text of lines {obj.lineno}-{obj.endlineno} of the loaded text", None))
+        ds = obj.docstring
+        if ds is not None and ds.lineno is not None:
+            try:
+                dsrc = ds.source
+            except Exception as e:  # noqa: BLE001
+                dsrc = f"<raises {type(e).__name__}>"
+            if dsrc != "\n".join(lines[ds.lineno - 1:ds.endlineno]):
+                fails.append(("docstring-source", f"{label}: {where}: Docstring.source is not lines {ds.lineno}-{ds.endlineno} of the loaded text", None))
+    return fails
+
+
+def run_reload_history(scratch, versions, ops):
+    """ops: "load" (a loader of its own), "reload" (same loader as the previous load), "shared" (new loader given the lines
+    collection of the previous one); before each op the file holds the next version.  Returns per op the failures."""
+    import griffe
+    d = Path(scratch) / f"reload-{next(_ISO_COUNTER)}"
+    d.mkdir(parents=True, exist_ok=True)
+    f = d / "m.py"
+    loader = None
+    out = []
+    for k, (src, op) in enumerate(zip(versions, ops)):
+        f.write_text(src, encoding="utf8")
+        if op == "load" or loader is None:
+            loader = griffe.GriffeLoader(search_paths=[d], allow_inspection=False)
+        elif op == "shared":
+            loader = griffe.GriffeLoader(search_paths=[d], allow_inspection=False, lines_collection=loader.lines_collection)
+        HISTORY.append({"source": src, "mname": "m", "is_init": False})
+        try:
+            mod = loader.load("m", try_relative_path=False)
+        except Exception as e:  # noqa: BLE001
+            out.append([("load-raises", f"step {k + 1} ({op}): {type(e).__name__}: {e}", None)])
+            continue
+        out.append(text_checks(src, mod, f"step {k + 1} ({op})"))
+    return out
+
+
+def reload_stream(ctx):
+    """Histories of loads of one file whose text changes in between, with one loader or with loaders sharing a lines
+    collection: after every load every span / lines / source / docstring source must be about the text loaded by THAT
+    load.  The model side: the collection after any history holds the last text stored for the path (C01_lines_*)."""
+    import warnings
+    nh = ctx.budget(25, 250)
+    wire, hists = [], []
+    for i in range(nh):
+        n = ctx.rng.randint(2, 3)
+        base = gen_case(ctx.rng, i, profile="history")
+        versions = [base["source"]]
+        for _ in range(n - 1):
+            r = ctx.rng.random()
+            prev = versions[-1]
+            if r < 0.4:        # lines inserted above: everything shifts
+                versions.append("\n".join(["# edit"] * ctx.rng.randint(1, 4)) + "\nimport sys as _edit\n" + prev)
+            elif r < 0.7:      # another module altogether
+                versions.append(gen_case(ctx.rng, i, profile="history")["source"])
+            elif r < 0.85:     # lines removed from the top (the preamble's first statement or the docstring goes)
+                versions.append("\n".join(prev.splitlines()[1:]) + "\n" if "\n" in prev and _compiles("\n".join(prev.splitlines()[1:]) + "\n") else prev + "x_edit = 1\n")
+            else:              # unchanged
+                versions.append(prev)
+        ops = ["load"] + [ctx.rng.choice(["reload", "reload", "shared", "load"]) for _ in range(n - 1)]
+        hists.append((versions, ops))
+        wire.append(["lines-history", [["m.py" if op != "load" or k == 0 else "m.py", v.splitlines(), op] for k, (v, op) in enumerate(zip(versions, ops))]])
+    models = ctx.model(wire)
+    with warnings.catch_warnings():
+        warnings.simplefilter("ignore")
+        for (versions, ops), mres in zip(hists, models):
+            case = {"reload_history": {"versions": versions, "ops": ops}}
+            ctx.case(case, True)
+            ctx.observe("stream", "reload-history")
+            ctx.observe("reload_ops", "/".join(ops))
+            # model: after each step the collection holds exactly the text of that step (theorem C01_lines_last_store_wins)
+            if mres != [v.splitlines() for v in versions]:
+                ctx.tie_failure("oracle", "lines collection model: the text held for the path after each load", first_diff(mres, [v.splitlines() for v in versions]), case)
+            for fails in run_reload_history(ctx.scratch, versions, ops):
+                ctx.count("reload_loads_checked")
+                for name, detail, finding in fails:
+                    ctx.property_failure(case, f"{name}: {detail}", finding)
+
+
+def _compiles(src):
+    try:
+        compile(src, "<c01-edit>", "exec", dont_inherit=True)
+        return True
+    except SyntaxError:
+        return False
+
+
+# =====================================================================================================================
 # explore
 # =====================================================================================================================
 def nontrivial_case(case):
@@ -2741,6 +2874,8 @@ def check_structural(ctx, cases, label):
         if c["executable"]:
             rt = runtime_checks(c, tree, mod)
             ctx.observe("exec", "failed" if rt is None else "ok")
+            if c.get("_exports_vs_binding"):
+                ctx.observe("branch", "exports-vs-surviving-binding")
             if c.get("_exports_compared"):
                 ctx.observe("branch", "runtime-__all__-compared" + ("-with-extend/append" if "__all__.extend(" in c["source"] or "__all__.append(" in c["source"] else ""))
             fails += rt or []
@@ -2905,6 +3040,7 @@ def explore(ctx):
         check_structural(ctx, corpus, "corpus")
     synthetic_visibility(ctx)
     ext_history_stream(ctx)
+    reload_stream(ctx)
     if not getattr(ctx, "c01_tainted", False) and not ctx.prop_failures:
         history_stream(ctx)
     n = ctx.budget(700, 9000)
@@ -2971,6 +3107,13 @@ def search(ctx):
 
 def replay(ctx, data):
     case = data.get("failing_input") or {}
+    if case.get("reload_history"):
+        h = case["reload_history"]
+        ctx.scratch.mkdir(parents=True, exist_ok=True)
+        print("detail:", data.get("detail"))
+        for k, (fails, op) in enumerate(zip(run_reload_history(ctx.scratch, h["versions"], h["ops"]), h["ops"])):
+            print(f"step {k + 1} ({op}, {len(h['versions'][k].splitlines())} lines):", "ok" if not fails else fails[:3])
+        return 0
     if case.get("ext_history"):
         h = case["ext_history"]
         ops = [op if op[0] == "add" else ["visit", {"source": op[1], "mname": "m", "is_init": bool(op[2])}] for op in h["ops"]]
